@@ -34,6 +34,8 @@ PRELUDE = [
     "(define (mk-kept n) (set! keep (cons (lambda () (set! n (+ n 1)) n) keep)) n)",
     "(define (mk-kept-d k) (define n k) (set! keep (cons (lambda () (set! n (+ n 1)) n) keep)) (if (< k 0) 0 n))",
     "(define (mk-kept-v v) (set! keep (cons (lambda () v) keep)) v)",
+    # a closure that READS no local variable and only ASSIGNS one of the enclosing call
+    "(define (mk-resettable) (let ((n 0)) (list (lambda () (set! n (+ n 1)) n) (lambda () (set! n 0)) (lambda (v) (set! n v)))))",
     "(define g 0)",
     "(define (bump-g!) (set! g (+ g 1)) g)",
     "(define (shadow-g) (let ((g 100)) (set! g (+ g 1)) g))",
@@ -49,6 +51,7 @@ class Sim:
         self.pairs = {}        # name -> [n]
         self.vecs = {}         # variable -> python list object (identity = the vector)
         self.lists = {}        # variable -> python list of (vector object)
+        self.resettables = {}  # name -> [n]
         self.pokers = {}       # name -> vector object
         self.readers = {}
         self.g = 0
@@ -69,7 +72,8 @@ class Sim:
 
     def step(self):
         r = self.rng
-        ops = ["counter-new", "pair-new", "vec-new", "bump", "counters-batch", "cells-batch", "kept-new", "kept-vec"]
+        ops = ["counter-new", "pair-new", "vec-new", "bump", "counters-batch", "cells-batch", "kept-new", "kept-vec", "resettable-new"]
+        if self.resettables: ops += ["resettable-inc", "resettable-reset", "resettable-set"] * 2
         if self.counters: ops += ["counter-call"] * 3
         if len(self.counters) >= 2: ops += ["counter-assign"] * 2
         if len(self.vecs) >= 2: ops += ["vec-assign"] * 3
@@ -83,6 +87,18 @@ class Sim:
         if op == "counter-new":
             n = self.fresh("c"); self.counters[n] = [0]
             self.emit("(define %s (%s))" % (n, r.choice(["mk-counter", "mk-counter-d", "mk-counter-d", "mk-counter-b"])), "N")
+        elif op == "resettable-new":
+            n = self.fresh("q"); self.resettables[n] = [0]
+            self.emit("(define %s (mk-resettable))" % n, "N")
+        elif op == "resettable-inc":
+            n = r.choice(list(self.resettables)); self.resettables[n][0] += 1
+            self.emit("((car %s))" % n, "V i:%d" % self.resettables[n][0])
+        elif op == "resettable-reset":
+            n = r.choice(list(self.resettables)); self.resettables[n][0] = 0
+            self.emit("((car (cdr %s)))" % n, "V <void>")
+        elif op == "resettable-set":
+            n = r.choice(list(self.resettables)); v = r.randrange(100, 200); self.resettables[n][0] = v
+            self.emit("((car (cdr (cdr %s))) %d)" % (n, v), "V <void>")
         elif op == "kept-new":
             k = r.randrange(0, 50); which = r.choice(["mk-kept", "mk-kept-d"])
             self.emit("(%s %d)" % (which, k), "V i:%d" % k)
